@@ -239,6 +239,44 @@ def xz_list(ctx, item, obs, size):
         if got != want:
             return bad("block", "block line %s, model %s" % (got, want))
 
+def combine_histories(hs):
+    """The calls that build the index of all Streams of several files in a row (the Streams of the later files are
+    built in slot 2 and concatenated like the non-first Streams of a file)."""
+    out = list(hs[0])
+    for h in hs[1:]:
+        first = next((n for n, o in enumerate(h) if o["op"] == "init"), len(h))
+        out.append(dict(h[0], op="init", k=2, j=0))
+        out += [dict(o, k=2) for o in h[:first]]
+        out.append(dict(h[0], op="cat", k=1, j=2))
+        out += h[first:]
+    return out
+
+def xz_list_totals(ctx, groups):
+    """`xz --list --robot` over several files: the totals line must be the model's figures of all their Streams."""
+    hists = [combine_histories([it["built"]["history"] for it in g]) for g in groups]
+    plans = eval_histories(ctx, hists, "totals")
+    xz = build.cli()["xz"]
+    e = dict(os.environ); e.pop("LD_PRELOAD", None)
+    for g, p in zip(groups, plans):
+        obs = [o for k, o in p[-1]["obs"] if k == 1][0]
+        want = [obs["streams"], obs["blocks"], big_(obs["fsize"]), big_(obs["usize"]), sum(big_(s["pad"]) for s in obs["st"]), len(g)]
+        names = sorted(CHECKNAME.get(c, "?") for c in range(16) if obs["checks"] >> c & 1)
+        if want[2] != sum(it["built"]["size"] for it in g):
+            raise MachineryError("model file size of the listed files %d, real %d" % (want[2], sum(it["built"]["size"] for it in g)))
+        for opts in ([], ["-vv"]):
+            r = subprocess.run([xz, "--list", "--robot"] + opts + [it["path"] for it in g], stdout=subprocess.PIPE,
+                               stderr=subprocess.STDOUT, text=True, env=e, timeout=120)
+            rows = [l.split("\t") for l in r.stdout.splitlines() if l.startswith("totals\t")]
+            got = [int(rows[0][k]) for k in (1, 2, 3, 4, 7, 8)] if len(rows) == 1 and r.returncode == 0 else None
+            ctx.case(key=("xzlist_totals", tuple(json.dumps(it["streams"]) for it in g), tuple(opts)))
+            if got != want or sorted(x.strip() for x in rows[0][6].split(",")) != names:
+                if "totals" not in XZSEEN:
+                    XZSEEN.add("totals")
+                    ctx.violation("xzlist:totals", "xz --list --robot %s of %d files: totals %s %s, model %s %s\n%s" % (
+                        " ".join(opts), len(g), got, rows[0][6] if rows else None, want, names, r.stdout[-1200:]),
+                        dict(kind="xz_list_totals", files=[it["streams"] for it in g]))
+    return len(groups)
+
 def file_info(ctx, nfiles, ndamaged, budget_events):
     from lib import tracev
     items = make_files(ctx, nfiles, ndamaged)
@@ -306,6 +344,13 @@ def file_info(ctx, nfiles, ndamaged, budget_events):
     for it in valid:
         xz_list(ctx, it, it["obs"], it["built"]["size"])
         ctx.case(key=("xzlist", json.dumps(it["streams"])))
+    # several files at once: multi-Stream / padded files first
+    cand = sorted((it for it in valid if not it.get("bigindex")), key=lambda it: -(len(it["streams"]) + sum(1 for x in it["streams"] if x["pad"])))
+    ng = 4 if ctx.quick else 16
+    groups = [cand[n::ng][:3] for n in range(ng)]
+    groups = [g for g in groups if len(g) >= 2]
+    nt = xz_list_totals(ctx, groups)
+    ctx.log("xz --list totals: %d groups of files compared (robot, robot -vv)" % nt)
     ctx.log("file-info: %d files (%d damaged), %d decodes / %d calls validated by TraceFileInfo (rejected %d), %d Blocks decoded "
             "at index offsets, %d xz --list comparisons" % (len(items), ndamaged, len(hists), nev, rej, nblocks, len(valid)))
     return [p for p in plans]
@@ -356,6 +401,7 @@ def generate_plans(ctx):
     jobs.append(("bfs", dict(cfg="GenIndexBfs.cfg" if q else "GenIndexBfsT.cfg")))
     jobs.append(("iter", dict(cfg="GenIndexIter.cfg")))
     # every index of 5+ Streams over {empty, empty Block, Block} and of 5+ all-empty / non-empty Record groups
+    jobs.append(("hash", dict(cfg="GenIndexHash.cfg")))      # every transition of a small lzma_index_hash state graph
     jobs.append(("family", dict(cfg="GenIndexFam.cfg" if q else "GenIndexFamT.cfg")))      # every transition of a one-index iterator state graph
     seeds = [ctx.rng.randrange(1, 1 << 30) for _ in jobs]
     def one(a):
@@ -395,14 +441,15 @@ def run(ctx):
     # (R) index histories
     groups = {}
     for label, r in gen:
-        ctx.add_tlc("GenIndex(%s)" % label, r, exhaustive=(label in ("bfs", "iter", "family")) or None)
+        ctx.add_tlc("GenIndex(%s)" % label, r, exhaustive=(label in ("bfs", "iter", "family", "hash")) or None)
         groups.setdefault(label, []).extend(plans_from_tlc(r.out))
     if len(groups.get("walks", [])) < 100 or len(groups.get("bfs", [])) < 1000 or len(groups.get("volume", [])) < 10 \
-       or len(groups.get("iter", [])) < 500 or len(groups.get("family", [])) < 1000:
+       or len(groups.get("iter", [])) < 500 or len(groups.get("family", [])) < 1000 \
+       or len(groups.get("hash", [])) < 300:
         raise MachineryError("plan generation produced too few plans: %s" % {k: len(v) for k, v in groups.items()})
     ctx.sample(dict(kind="index_plan", ops=plan_ops(groups["walks"][0])))
     ctx.sample(dict(kind="index_volume_plan", ops=plan_ops(groups["volume"][0])))
-    for label in ("iter", "family", "bfs", "walks", "volume"):
+    for label in ("iter", "hash", "family", "bfs", "walks", "volume"):
         replay_index(ctx, groups[label], label)
     # (V) file-info
     fplans = file_info(ctx, 24 if q else 160, 6 if q else 40, 12000 if q else 120000)
